@@ -163,7 +163,7 @@ fn gen_guest(rng: &mut Rng) -> GuestSpec {
     for _ in 0..n {
         blocks.push(match rng.below(14) {
             0..=2 => Block::Delay(rng.range(1, 30) as u16),
-            3 => Block::Arith(rng.u8()),
+            3 => if rng.chance(1, 2) { Block::Arith(rng.u8()) } else { Block::Filler(rng.u32()) },
             4 => Block::Call,
             5 => Block::Tick,
             6 => Block::Trapa(rng.range(1, 3) as u8),
